@@ -92,6 +92,10 @@ CouponHashSet<A>* CouponHashSet<A>::newSet(const void* bytes, size_t len, const 
   if (lgArrInts < hll_constants::LG_INIT_SET_SIZE) {
     lgArrInts = HllUtil<>::computeLgArrInts(SET, couponCount, lgK);
   }
+  // a set with more coupons than 3/4 of its largest table has already been promoted to HLL
+  if (hll_constants::RESIZE_DENOM * static_cast<uint64_t>(couponCount) > (hll_constants::RESIZE_NUMER << (lgK - 3))) {
+    throw std::invalid_argument("Invalid CouponHashSet coupon count: " + std::to_string(couponCount));
+  }
   if (lgArrInts > lgK - 3) { // the set is promoted to HLL instead of growing beyond this
     throw std::invalid_argument("Invalid CouponHashSet array size: lgArrInts " + std::to_string(lgArrInts));
   }
@@ -164,6 +168,10 @@ CouponHashSet<A>* CouponHashSet<A>::newSet(std::istream& is, const A& allocator)
     throw std::runtime_error("error reading from std::istream");
   if (lgArrInts < hll_constants::LG_INIT_SET_SIZE) {
     lgArrInts = HllUtil<>::computeLgArrInts(SET, couponCount, lgK);
+  }
+  // a set with more coupons than 3/4 of its largest table has already been promoted to HLL
+  if (hll_constants::RESIZE_DENOM * static_cast<uint64_t>(couponCount) > (hll_constants::RESIZE_NUMER << (lgK - 3))) {
+    throw std::invalid_argument("Invalid CouponHashSet coupon count: " + std::to_string(couponCount));
   }
   if (lgArrInts > lgK - 3) { // the set is promoted to HLL instead of growing beyond this
     throw std::invalid_argument("Invalid CouponHashSet array size: lgArrInts " + std::to_string(lgArrInts));
